@@ -57,6 +57,7 @@ fixed("C06","C06/ttl/omitted-uses-$TTL/ttl-class/generate","c4c1c70","records pr
 fixed("C06","C06/parse-error/owner-only-escaped-specials","ce2e7fa","an entry whose owner (or any token) consists only of escaped special characters (e.g. the owner \\; ) was rejected with 'no blank after owner': the lexer did not end the run of blanks for escaped characters")
 fixed("C06","C06/parse-error/mnemonic-like-token-after-comment-in-parentheses","603cf10","a comment inside parentheses reset the lexer's 'type seen' flag, so a following RDATA token spelling a type/class mnemonic (base64 chunk AAAA) was lexed as a type and the record rejected")
 fixed("C06","C06/keyword-like-token/origin-relative/a","7b7f089","a relative $ORIGIN value that spells a type mnemonic (a, mx, ns, soa, txt, aaaa, any) was rejected, and such an origin argument of $INCLUDE was silently ignored (included records completed with the wrong origin)")
+fixed("C06","C06/keyword-like-token/origin-absolute-trailing-comment/classic","2b347ff","an origin name that merely starts with TYPE or CLASS (classic.example., type1.example., typeset) followed by a blank or a comment after $ORIGIN / as $INCLUDE origin was rejected with 'unknown RR type' / 'unknown class' by the lexer")
 # ---- C07
 fixed("C07","C07/error-line-out-of-range/mutation","de58904","a zone text ending right after a $GENERATE range ('$GENERATE 13-17<EOF>') was reported as 'garbage after $GENERATE range: \"\" at line: 0:0': the end-of-input token carries no position")
 # ---- C11
